@@ -6,7 +6,7 @@ from .. import env, attach, gen, flow, solve
 from ..canon import Snap, nodal_row_index
 
 PROPERTY = 'C18'
-CASES = {'quick': 60, 'thorough': 700}
+CASES = {'quick': 180, 'thorough': 1440}
 BUDGET_S = {'quick': 300, 'thorough': 2400}
 RULE = ('case = a random LP portfolio (contracts with spread and takes, transports with efficiency, storages, multi-commodity, coarse assets, '
         'structured wrappers with internal nodes, 1-3 nodes) solved unsplit or split through the real code; nodal prices are read from '
@@ -16,7 +16,7 @@ RULE = ('case = a random LP portfolio (contracts with spread and takes, transpor
         'price != 0; distinct = spec hashes.')
 ASSUMPTIONS = ['tolerance 2e-5*(1+|V|) + 1e-6*|price*d| (Clarabel duals agree with HiGHS to ~1e-7 relative)', 'results flagged inaccurate make no claim',
                'the row of a (node, step) is located via map_nodal_restr (its coefficients are cross-checked against the mapping by C07)']
-MIN_NONVACUOUS = {'quick': {'price.supergradient': 300, 'price.reported_for_every_nodal_row': 40},
+MIN_NONVACUOUS = {'quick': {'price.supergradient': 750, 'price.reported_for_every_nodal_row': 100},
                   'thorough': {'price.supergradient': 6000}}
 KINDS = ('contract', 'contract', 'transport', 'transport', 'storage', 'storage', 'multi', 'coarse', 'structured', 'structured', 'orderbook', 'periodic')
 DS = [1e-3, -1e-3, 0.1, -0.1, 1., -1.]
